@@ -808,18 +808,20 @@ class BaseWorkflow(object, metaclass=abc.ABCMeta):
                     task.allocated_facility_list = []
 
     def __set_est_eft_data(self, time: int):
-        input_task_set = set()
+        # tasks are visited in a fixed order (task_list / output_task_list order), not in the
+        # address-dependent order of a set: ties between dependencies are resolved reproducibly
+        input_task_set = []
 
         # 1. Set the earliest finish time of head tasks.
         for task in self.task_list:
             task.est = time
             if len(task.input_task_list) == 0:
                 task.eft = time + task.remaining_work_amount
-                input_task_set.add(task)
+                input_task_set.append(task)
 
         # 2. Calculate PERT information of all tasks
         while len(input_task_set) > 0:
-            next_task_set = set()
+            next_task_set = []
             for input_task in input_task_set:
                 for next_task, dependency in input_task.output_task_list:
                     pre_est = next_task.est
@@ -847,7 +849,8 @@ class BaseWorkflow(object, metaclass=abc.ABCMeta):
                     if est >= pre_est:
                         next_task.est = est
                         next_task.eft = eft
-                    next_task_set.add(next_task)
+                    if next_task not in next_task_set:
+                        next_task_set.append(next_task)
 
             input_task_set = next_task_set
 
@@ -858,7 +861,7 @@ class BaseWorkflow(object, metaclass=abc.ABCMeta):
             task.lft = -1.0
 
         # 1. Extract the list of tail tasks.
-        output_task_set = set(
+        output_task_set = list(
             filter(lambda task: len(task.output_task_list) == 0, self.task_list)
         )
 
@@ -870,7 +873,7 @@ class BaseWorkflow(object, metaclass=abc.ABCMeta):
 
         # 3. Calculate PERT information of all tasks
         while len(output_task_set) > 0:
-            prev_task_set = set()
+            prev_task_set = []
             for output_task in output_task_set:
                 for prev_task, dependency in output_task.input_task_list:
                     pre_lft = prev_task.lft
@@ -898,7 +901,8 @@ class BaseWorkflow(object, metaclass=abc.ABCMeta):
                     if pre_lft < 0 or pre_lft >= lft:
                         prev_task.lst = lst
                         prev_task.lft = lft
-                    prev_task_set.add(prev_task)
+                    if prev_task not in prev_task_set:
+                        prev_task_set.append(prev_task)
 
             output_task_set = prev_task_set
 
